@@ -19,6 +19,9 @@ Render(r) ==
     [] r.shape \in {"string", "bytes", "ptr_string", "ptr_bytes", "any_string", "any_bytes"} -> IF r.s = "" THEN Nothing ELSE Sends(200, r.s)
     [] r.shape = "int_ptr_bytes" -> Sends(r.code, r.s)
     [] r.shape = "error" -> IF r.err = "" THEN Nothing ELSE Sends(500, r.err)
+    \* an error also when the declared result type is a concrete pointer type implementing error (non-nil pointers only)
+    [] r.shape = "ptr_err" -> Sends(500, r.err)
+    [] r.shape = "int_ptr_err" -> Sends(r.code, r.err)
     [] r.shape \in {"int_string", "int_bytes"} -> Sends(r.code, r.s)
     [] r.shape = "int_error" -> Sends(r.code, r.err)
     [] r.shape \in {"string_error", "bytes_error"} ->
